@@ -422,6 +422,68 @@ def desugar_folds(body, count, where, prov):
     return body
 
 
+def desugar_map_collect_sets(body, count, where, prov):
+    """class D: `let N: HashSet<T> = ITER.map(|X| E).collect();` becomes
+       `let N: HashSet<T> = { let mut acc: HashSet<T> = HashSet::new(); for X in ITER { acc.insert(E); } acc };`
+       (FromIterator for HashSet inserts every item)."""
+    done = 0
+    while True:
+        toks = code_tokens(body)
+        k = None
+        for i, t in enumerate(toks):
+            if t[1] == "collect" and toks[i - 1][1] == "." and toks[i + 1][1] == "(" and toks[i + 2][1] == ")" and toks[i + 3][1] == ";":
+                # preceded by .map( closure )
+                if toks[i - 2][1] == ")":
+                    k = i
+                    break
+        if k is None:
+            break
+        # find matching '(' of the map call
+        depth, j = 0, k - 2
+        while True:
+            if toks[j][1] in ")]}" and toks[j][0] == "punct":
+                depth += 1
+            elif toks[j][1] in "([{" and toks[j][0] == "punct":
+                depth -= 1
+                if depth == 0:
+                    break
+            j -= 1
+        if toks[j - 1][1] != "map" or toks[j - 2][1] != ".":
+            raise LostAnchor("%s: collect() not preceded by .map(..)" % where)
+        mp = j - 1
+        if not (toks[j + 1][1] == "|" and toks[j + 3][1] == "|" and toks[j + 2][0] == "id"):
+            raise LostAnchor("%s: map closure is not `|x| expr`" % where)
+        x = toks[j + 2][1]
+        expr = body[toks[j + 4][2]:toks[k - 3][3]]
+        # enclosing let
+        e = mp - 2
+        depth = 0
+        while e >= 0:
+            t = toks[e]
+            if t[0] == "punct" and t[1] in ")]}":
+                depth += 1
+            elif t[0] == "punct" and t[1] in "([{":
+                depth -= 1
+            if t[1] == "=" and depth == 0 and not (toks[e + 1][1] in "=>" and toks[e + 1][2] == t[3]) and not (toks[e - 1][1] in "=!<>" and toks[e - 1][3] == t[2]):
+                break
+            e -= 1
+        l = e
+        while toks[l][1] != "let":
+            l -= 1
+        colon = next(i for i in range(l, e) if toks[i][1] == ":")
+        ty = body[toks[colon + 1][2]:toks[e - 1][3]]
+        if not ty.replace(" ", "").startswith("HashSet<"):
+            raise LostAnchor("%s: map/collect target is `%s`, only HashSet is handled" % (where, ty))
+        iter_txt = body[toks[e + 1][2]:toks[mp - 2][3]]
+        new = "{\n        let mut acc: %s = HashSet::new();\n        for %s in %s {\n            acc.insert(%s);\n        }\n        acc\n    };" % (ty, x, iter_txt, expr)
+        prov.append({"cls": "D", "what": "ITER.map(|x| e).collect::<HashSet<_>>() desugared to an inserting for loop", "iter": re.sub(r"\s+", "", iter_txt), "expr": expr})
+        body = body[:toks[e + 1][2]] + new + body[toks[k + 3][3]:]
+        done += 1
+    if done != count:
+        raise LostAnchor("%s: %d map/collect sites desugared, unit declares %d" % (where, done, count))
+    return body
+
+
 def lift_fold(sig, body, fl, where, prov):
     """class D (lifted form, used when the fold closure has early returns):
        `let N: T = ITER.fold(INIT, |mut ACC, X| BODY);` becomes
@@ -742,8 +804,13 @@ class Unit:
             attrs, derives = _strip_attrs(it.attrs, prov)
             sig = strip_comments(it.sig)
             body = strip_comments(it.body)
+            if spec.get("contract_only"):
+                spec = {k: v for k, v in spec.items() if k not in ("lift", "fold_lift", "desugar_folds", "desugar_map_collect_sets", "closure", "autofmt", "top", "loop")}
+                spec["edit"] = [e for e in spec.get("edit", []) if e.get("in") == "sig"]
             sig = apply_edits(sig, [e for e in spec.get("edit", []) if e.get("in") == "sig"], where, prov)
             body = apply_edits(body, [e for e in spec.get("edit", []) if e.get("in", "body") == "body"], where, prov)
+            if spec.get("desugar_map_collect_sets"):
+                body = desugar_map_collect_sets(body, spec["desugar_map_collect_sets"], where, prov)
             if spec.get("desugar_folds"):
                 body = desugar_folds(body, spec["desugar_folds"], where, prov)
             lifted = None
@@ -770,8 +837,6 @@ class Unit:
                 # imported contract: proved in its home unit, assumed here (the driver checks that the home unit is part of the same check)
                 cs = dict(spec)
                 cs.pop("loop", None); cs.pop("top", None)
-                if spec.get("lift") and not spec.get("import_enclosing"):
-                    raise LostAnchor("cannot import a lifted closure")
                 chunks = splice_fn(sig, "{ unimplemented!() }", cs, where, prov, False, {})
                 em.emit("#[verifier::external_body]", {"kind": "imported", "what": "contract of %s, proved in unit %s" % (label, spec["contract_only"]), "home": spec["contract_only"], "label": label})
                 for txt, org in chunks:
@@ -928,7 +993,7 @@ class Unit:
             for f in sub["finds"]:
                 if f not in table:
                     raise LostAnchor("import_from %s: no item `%s`" % (sub["import_from"], f))
-                self.emit_item(em, dict(table[f], contract_only=sub["import_from"]))
+                self.emit_item(em, dict(table[f], contract_only=sub["import_from"], import_enclosing=True))
         elif "generator" in sub:
             import importlib
             importlib.import_module(sub["generator"]).generate(self, em)
